@@ -23,6 +23,9 @@ FIRST = {
     "S12g-batchtask-deadline-max": ("missed (batching mode was switched off in every C12 case)", "C12 gained cplex_planner_batching: TetriSched-CPLEX with --scheduler_enable_batching, members of one batch with different deadlines, half of the cases in the contended-batch shape"),
     "S14g-ilp-drops-retract-flag": ("missed (no instance held an earlier plan; retract_schedules never set)", "C14 gained ilp_goodput_retraction (and a quarter of ilp_goodput): ILP with retract_schedules and SCHEDULED tasks that are offered again; the brute force ranges over them as over any offered task"),
     "S01g-resource-eq-ignores-name-for-specific-ids": ("missed by C01 (caught by C04 pools_machine: ids that coincide across types only exist through the API, where C04 builds them)", None),
+    "S04h-evict-pending-zero-runtime-profile": ("missed (the worker model did not tell pending from available profiles; every loading strategy took 3 us)", "C04 worker_machine models the pending and the available profile sets after every operation; loading strategies take 0 or 3 us"),
+    "S18h-scheduled-terminal-join-not-released": ("missed (deep states too rare; the harness's `run`-like path required SCHEDULED where the simulator has RELEASED)", "C18 graph_states gained the operations run (release what is due, place and start a runnable task), finish_next and plan_join (a join placed ahead of its parents)"),
+    "S07h-only-last-untaken-branch-reported": ("missed by C07 (caught by C06 cancel_row_count: the tasks are cancelled, only the report of it is lost, which is C06's clause; same change as S06g)", None),
     "S17b-stale-topological-order-cache": ("missed", "C17 gained graph_history: all clauses re-asked after every add_node/add_child/remove on one Graph object"),
     "S01b-reload-profile-skips-booking": ("missed", None),
     "S11e-ilp-skips-precedence-for-scheduled-children": ("missed (state never built)", "scheduler-input states for C11 may contain children that an earlier invocation planned ahead (SCHEDULED after a RUNNING/SCHEDULED parent)"),
